@@ -185,6 +185,7 @@ class Module:
             self.tree = ast.parse(self.src, filename=path)
         except SyntaxError as e:
             raise AnalysisError('module %s does not parse: %s' % (path, e))
+        self.inlined = inline_expression_helpers(self.tree)
         for parent in ast.walk(self.tree):
             for ch in ast.iter_child_nodes(parent):
                 ch._parent = parent
@@ -736,3 +737,120 @@ def func_of(node):
             names.append(p.name)
         p = getattr(p, '_parent', None)
     return '.'.join(reversed(names))
+
+
+# --------------------------------------------------------------------------- wrapper inlining
+
+def _pure_simple(e):
+    if isinstance(e, (ast.Name, ast.Constant)):
+        return True
+    if isinstance(e, ast.Attribute):
+        return _pure_simple(e.value)
+    return False
+
+
+def inline_expression_helpers(tree):
+    """Resolve trivial wrappers: a module-level, undecorated function whose body is a single `return <expr>` is
+    substituted at its call sites inside other functions of the same module when every argument is a pure
+    simple expression (name, attribute chain, constant), so that the analyses see the wrapped expression --
+    e.g. `_next_is(buf, TC.X)` is analysed as `buf.hasNext() and buf.peek().category == TC.X`.  The helper itself
+    stays in the module.  Returns the list of (helper, call-site line) pairs that were inlined."""
+    import copy
+    helpers = {}
+    for st in tree.body:
+        if isinstance(st, ast.FunctionDef) and not st.decorator_list:
+            body = [s for s in st.body if not (isinstance(s, ast.Expr) and isinstance(s.value, ast.Constant))]
+            a = st.args
+            if len(body) == 1 and isinstance(body[0], ast.Return) and body[0].value is not None and not a.vararg and not a.kwarg \
+                    and not a.kwonlyargs and not a.posonlyargs:
+                expr = body[0].value
+                if any(isinstance(x, (ast.Lambda, ast.Yield, ast.YieldFrom, ast.Await, ast.NamedExpr)) for x in ast.walk(expr)):
+                    continue
+                # not self-recursive
+                if any(isinstance(x, ast.Name) and x.id == st.name for x in ast.walk(expr)):
+                    continue
+                # only boolean/comparison style wrappers (conditions): keeps the transformation obviously safe
+                if not isinstance(expr, (ast.BoolOp, ast.Compare, ast.UnaryOp)):
+                    continue
+                helpers[st.name] = st
+    if not helpers:
+        return []
+    done = []
+
+    class Sub(ast.NodeTransformer):
+        def __init__(self, env):
+            self.env = env
+
+        def visit_Name(self, n):
+            if isinstance(n.ctx, ast.Load) and n.id in self.env:
+                return copy.deepcopy(self.env[n.id])
+            return n
+
+    class Inl(ast.NodeTransformer):
+        def visit_Call(self, n):
+            self.generic_visit(n)
+            if isinstance(n.func, ast.Name) and n.func.id in helpers and self.cur is not helpers[n.func.id]:
+                h = helpers[n.func.id]
+                params = [x.arg for x in h.args.args]
+                if any(isinstance(x, ast.Starred) for x in n.args) or any(k.arg is None for k in n.keywords):
+                    return n
+                env = {}
+                defaults = dict(zip(params[len(params) - len(h.args.defaults):], h.args.defaults))
+                for p, a in zip(params, n.args):
+                    env[p] = a
+                for k in n.keywords:
+                    if k.arg in params:
+                        env[k.arg] = k.value
+                for p in params:
+                    if p not in env:
+                        if p in defaults and isinstance(defaults[p], ast.Constant):
+                            env[p] = defaults[p]
+                        else:
+                            return n
+                if not all(_pure_simple(v) for v in env.values()) or len(n.args) > len(params):
+                    return n
+                body = [s for s in h.body if isinstance(s, ast.Return)][0].value
+                new = Sub(env).visit(copy.deepcopy(body))
+                for x in ast.walk(new):
+                    ast.copy_location(x, n)
+                done.append((h.name, getattr(n, 'lineno', 0)))
+                return new
+            return n
+
+    for st in tree.body:
+        targets = [st] if isinstance(st, ast.FunctionDef) else ([x for x in st.body if isinstance(x, ast.FunctionDef)]
+                                                              if isinstance(st, ast.ClassDef) else [])
+        for fn in targets:
+            t = Inl()
+            t.cur = fn
+            for i, s in enumerate(fn.body):
+                fn.body[i] = t.visit(s)
+    ast.fix_missing_locations(tree)
+    return done
+
+
+def resolve_locals(fnode, expr, depth=0):
+    """the expression with single-assignment locals of the function substituted by their definitions"""
+    import copy
+    assigns = {}
+    params = {a.arg for a in fnode.args.args + fnode.args.kwonlyargs}
+    for n in ast.walk(fnode):
+        if isinstance(n, ast.Assign) and len(n.targets) == 1 and isinstance(n.targets[0], ast.Name):
+            assigns.setdefault(n.targets[0].id, []).append(n.value)
+        elif isinstance(n, ast.AugAssign) and isinstance(n.target, ast.Name):
+            assigns.setdefault(n.target.id, []).append(None)
+        elif isinstance(n, (ast.For, ast.comprehension)):
+            for x in ast.walk(n.target):
+                if isinstance(x, ast.Name):
+                    assigns.setdefault(x.id, []).append(None)
+
+    class R(ast.NodeTransformer):
+        def __init__(self, d):
+            self.d = d
+
+        def visit_Name(self, n):
+            if isinstance(n.ctx, ast.Load) and n.id not in params and len(assigns.get(n.id, [])) == 1 \
+                    and assigns[n.id][0] is not None and self.d < 6:
+                return R(self.d + 1).visit(copy.deepcopy(assigns[n.id][0]))
+            return n
+    return R(depth).visit(copy.deepcopy(expr))
